@@ -286,8 +286,13 @@ class Generator:
                 except Exception as ex:
                     self.problems.append(('unsupported', it.key + '__mp', str(ex)))
         items += extra
-        proven_keys = {(it.kind, it.key) for it in items if it.kind in ('fn', 'const') and not it.assumed}
-        items = [it for it in items if not (it.assumed and (it.kind, it.key) in proven_keys)]
+        # an `[assumed]` entry is superseded by a real entry for the same KEY that is emitted in the same form: a real
+        # `ext_trait` entry (emitted as inherent method / free fn `PREFIX__m`) does not give the trait-form method
+        # `<T as Trait>::m` a contract, so it leaves a trait-form `[assumed]` entry of that KEY in place (and vice versa)
+        def _form(it):
+            return 'ext_trait' in it.entry.opts
+        proven_keys = {(it.kind, it.key, _form(it)) for it in items if it.kind in ('fn', 'const') and not it.assumed}
+        items = [it for it in items if not (it.assumed and (it.kind, it.key, _form(it)) in proven_keys)]
         self.items = items
         return items
 
